@@ -431,8 +431,6 @@ package lib
 //@   assigns nothing
 //@ func (db geoip.Database) ASN(ip net.IP) (uint, error)
 //@   assigns nothing
-//@ func core.GenSharedKeys(clientLibVer uint, sharedSecret []byte, tt pb.TransportType) (core.ConjureSharedKeys, error)
-//@   assigns nothing
 
 //@ func (rm *RegistrationManager) NewRegistration(c2s *pb.ClientToStation, conjureKeys *core.ConjureSharedKeys, includeV6 bool, registrationSource *pb.RegistrationSource) (*DecoyRegistration, error)
 //@   requires rm != nil && c2s != nil && conjureKeys != nil && rm.PhantomSelector != nil && rm.registeredDecoys != nil
@@ -460,7 +458,7 @@ package lib
 //@   ensures @C12: result1 == nil && rr != nil && rr.DstPort != nil ==> result0.PhantomPort == *rr.DstPort % 65536
 //@   ensures @C12: old(c2sw.RegistrationPayload.DisableRegistrarOverrides != nil && *c2sw.RegistrationPayload.DisableRegistrarOverrides) ==> c2sw.RegistrationPayload.TransportParams == old(c2sw.RegistrationPayload.TransportParams)
 //@   ensures @C12: result1 == nil && rr != nil && old(rr.TransportParams) != nil && !old(c2sw.RegistrationPayload.DisableRegistrarOverrides != nil && *c2sw.RegistrationPayload.DisableRegistrarOverrides) ==> c2sw.RegistrationPayload.TransportParams == old(rr.TransportParams)
-//@   assigns c2sw.RegistrationPayload.TransportParams, now()
+//@   assigns c2sw.RegistrationPayload.TransportParams, now(), drawn
 //@   checks safety
 
 // C11: a registration message from the ZMQ channel (arbitrary bytes, hence an arbitrary decoded wrapper with any
